@@ -25,7 +25,7 @@ def impl(cmd, payload=None, timeout=900):
 
 def driver(exe, lines, timeout=1800):
     p = os.path.join(C.WORK, "bin", exe)
-    rc, out, t = C.run([p], timeout, input="\n".join(lines) + "\n")
+    rc, out, t = C.run(["bash", "-c", "ulimit -s unlimited; exec " + p], timeout, input="\n".join(lines) + "\n")
     if rc != 0:
         raise RuntimeError(f"{exe} failed: {out[-800:]}")
     res = out.split("\n")
